@@ -146,6 +146,12 @@ func (s *EncryptionSession) initFinalize(reverse bool, keyContext string) error 
 		return errors.New("invalid key context")
 	}
 
+	// Check if the exchange keys are present.
+	// They may have been cleaned up by a concurrent key setup on the same session.
+	if s.kxRouterPrivate == nil || s.kxRemotePublic == nil {
+		return errors.New("key exchange keys missing")
+	}
+
 	// Compute shared key.
 	sharedKey, err := s.kxRouterPrivate.ECDH(s.kxRemotePublic)
 	if err != nil {
